@@ -62,12 +62,14 @@ def run(ctx):
     keys = ["scheme", "user", "password", "host", "port", "path", "query", "fragment"]
     edit_sets = [frozenset(c) for n in (1, 2) for c in itertools.combinations(keys, n)]
     if thorough:
-        edit_sets += [frozenset(c) for c in itertools.combinations(keys, 3)]
+        edit_sets += [frozenset(c) for c in itertools.combinations(["scheme", "user", "password", "host", "port"], 3)] + [frozenset({"path", "query", "fragment"})]
     else:
         edit_sets += [frozenset({"user", "password", "host"}), frozenset({"user", "password", "port"}), frozenset({"host", "port", "scheme"})]
-    K = dict(Schemes=frozenset({"http", "https", "ws", "wss"} if thorough else {"http", "wss"}), BuildSchemes=frozenset({"http", "https", "ws", "wss"}), Hosts=frozenset(HOSTS if thorough else ["named", "ipv6"]),
-             Ports=frozenset({"80", "443", "8080"}), Users=frozenset({"u1", "u2"} if not thorough else USERS), Passwords=frozenset({"pw1", "pw4"} if not thorough else PWS),
-             Paths=frozenset(PATHS if thorough else ["p_empty", "p_ae"]), Queries=frozenset({NONE, "q3"} if not thorough else QUERIES),
+    # (all components x all values x all 3-subsets is ~10^8 behaviours: thorough widens hosts, paths and fragments and takes every
+    #  3-subset of the netloc-related components)
+    K = dict(Schemes=frozenset({"http", "wss"}), BuildSchemes=frozenset({"http", "https", "ws", "wss"}), Hosts=frozenset(HOSTS if thorough else ["named", "ipv6"]),
+             Ports=frozenset({"80", "443", "8080"}), Users=frozenset({"u1", "u2"}), Passwords=frozenset({"pw1", "pw4"}),
+             Paths=frozenset(["p_empty", "p_ae", "p_slash"] if thorough else ["p_empty", "p_ae"]), Queries=frozenset({NONE, "q3"}),
              Fragments=frozenset(FRAGS if thorough else [NONE]), HostHeaders=frozenset(HOSTHDR), Roots=frozenset(ROOTS),
              DefaultPort=frozenset(DEFAULTS), EditKeys=frozenset(edit_sets))
     ctx.bounds = {k: (len(v) if isinstance(v, frozenset) else v) for k, v in K.items()}
